@@ -96,7 +96,7 @@ def c13(cx):
              "(each 'missing expected' error sits at the recovery token's offset, incl. finalize_lexing at end of "
              'input).')
 def c14(cx):
-    lea_glue.apply(cx, ["R-EXPECT-TABLE", "R-ERR-PAIR"])
+    lea_glue.apply(cx, ["R-EXPECT-TABLE", "R-ERR-PAIR", "R-EXPECT-SURVIVES"])
 
 
 @prop("C03", 'structural rules R-CURSOR-COUNT (every chars.next() of Cursor::advance/advance_by is matched by +1 '
